@@ -23,6 +23,12 @@ Definition add_term (f : fmt) (chunk : list Z) : list Z :=
 Definition terminator (f : fmt) (file : list Z) : list Z :=
   (if last file 0 =? 10 then [] else [10]) ++ marker f.
 
+(* end of file (parser.py __check_nothing_left, repaired code): what follows the last complete entry may only be
+   white space (space, TAB, CR, LF) or the new-entry marker of the format; anything else is an entry cut short *)
+Definition ignorable (f : fmt) (c : Z) : bool :=
+  (c =? 32) || (c =? 9) || (c =? 13) || (c =? 10) || existsb (Z.eqb c) (marker f).
+Definition leftover_ok (f : fmt) (l : list Z) : bool := forallb (ignorable f) l.
+
 Definition nl_pos (l : list Z) : list Z := positions 10 l.
 Definition count_nl (l : list Z) : nat := length (nl_pos l).
 
@@ -55,6 +61,10 @@ Definition m_header_line (i n : nat) : nat := ((i + 1) * n)%nat.                
 Definition m_plus_line (j n : nat) : nat := (2 + j * n)%nat.                     (* FastQBuffer._validate *)
 Definition m_reported (local_line lines_before : nat) : nat := (local_line + lines_before)%nat.
 Definition m_lines_after (lines_before buff_lines : nat) : nat := (lines_before + buff_lines)%nat.
+(* the line reported for an entry cut short at the end of the file: after a delivered buffer it is the line after
+   that buffer (n_lines_read is increased only afterwards); for text that never became a buffer, the lines read so far *)
+Definition m_incomplete_line (lines_before buff_lines : nat) : nat := (lines_before + buff_lines)%nat.
+Definition m_pending_incomplete_line (lines_before : nat) : nat := lines_before.
 
 Definition m_plus_wins (plus_line header_line : nat) : bool := (plus_line <? header_line)%nat.  (* FastQBuffer._validate *)
 
@@ -192,7 +202,8 @@ Definition rinit := {| r_pos := 0; r_prepend := []; r_finished := false; r_lines
 
 (* accumulate raw reads until the format says a complete entry is present (parser.py:131-150).
    [fixed] selects the repaired end-of-file handling (commit "fix: read_chunk no longer drops ...");
-   fixed = false is the code at the pinned commit.  [app] collects the bytes appended at end of file.
+   fixed = false is the code at the pinned commit (it also selects the end-of-file check of read_chunk below,
+   commit "fix: an entry cut short at the end of the file ...").  [app] collects the bytes appended at end of file.
    Result: inl (Some (temp, pos, finished, appended)) when an entry is complete;
            inl (None, pending, appended) when read_chunk returns None: [pending] are bytes that were
            read (or carried over) but are not delivered. *)
@@ -249,7 +260,9 @@ Definition read_chunk (fixed : bool) (f : fmt) (m : mode) (k : nat) (file : list
   | AOutOfFuel => ROutOfFuel
   | AFormat l => RFormat l
   | ANone pending app =>
-      RNone pending app {| r_pos := length file; r_prepend := []; r_finished := true; r_lines := r_lines st |}
+      (* repaired code: text that was read but never became a buffer must be ignorable (parser.py case "return None") *)
+      if fixed && negb (leftover_ok f pending) then RFormat (m_pending_incomplete_line (r_lines st))
+      else RNone pending app {| r_pos := length file; r_prepend := []; r_finished := true; r_lines := r_lines st |}
   | AComplete temp pos' fin appended =>
       let chunk := concat temp in
       match cut f chunk with
@@ -264,7 +277,9 @@ Definition read_chunk (fixed : bool) (f : fmt) (m : mode) (k : nat) (file : list
                  | Seek => {| r_pos := pos' - length rest; r_prepend := []; r_finished := false; r_lines := m_lines_after (r_lines st) nl |}
                  | Prepend => {| r_pos := pos'; r_prepend := rest; r_finished := false; r_lines := m_lines_after (r_lines st) nl |}
                  end in
-          RChunk buff (if fin then rest else []) appended st'
+          (* repaired code: at the end of the file what follows the buffer must be ignorable *)
+          if fixed && fin && negb (leftover_ok f rest) then RFormat (m_incomplete_line (r_lines st) nl)
+          else RChunk buff (if fin then rest else []) appended st'
       end
   end.
 
